@@ -350,6 +350,28 @@ def r9_expired_means_negative(ctx):
                    "in the still-valid branch the value is at least %s" % lo if ok else "a certificate that is still valid can get a negative days_until_expiry (`%s`): it would be refused as expired" % fmt(alt)[:70])
 
 
+def r10_server_keeps_the_shared_slot(ctx):
+    """the server serves from the slot the reloader swaps: `Server::new_with_reloadable_tls` stores the `Arc<RwLock<..>>` it is
+    given — the very object, not a fresh slot initialised with a copy of its current content (that server would present the
+    start-up certificate for ever, while the reloader's own info and counters report every reload as done)"""
+    from .common import param
+    b = ctx.body("R18.10", "server::server::Server::new_with_reloadable_tls")
+    if b is None:
+        return
+    o = ctx.origins(b)
+    slot = param(b, 1)
+    stored = None
+    for bi in sorted(b.reachable()):
+        for st in b.blocks[bi]["stmts"]:
+            if st["s"] == "assign" and st["rv"]["r"] == "aggregate" and str(st["rv"]["kind"].get("adt", "")).endswith("server::Server") and "tls_config" in (st["rv"]["kind"].get("fields") or []):
+                stored = o.of_operand(st["rv"]["ops"][st["rv"]["kind"]["fields"].index("tls_config")])
+    ok = stored is not None and var_name(stored) == slot
+    ctx.ob("R18.10", "Server::new_with_reloadable_tls:stores-the-slot-it-was-given", ok, "src/server/server.rs:%s" % b.span.get("line", "?") if isinstance(b.span, dict) else "",
+           "the server's tls_config is the caller's shared slot" if ok else
+           "new_with_reloadable_tls does not store the slot it was given (tls_config = %s): the listening server no longer shares the cell CertReloader::reload swaps, so a successful reload is never used by "
+           "any later handshake" % (fmt(stored)[:60] if stored is not None else "constructed elsewhere"))
+
+
 def run(ctx):
     r9_expired_means_negative(ctx)
     from . import C20 as _C20
@@ -358,6 +380,7 @@ def run(ctx):
     effects.check_property(ctx, "C18")    # R18.E: no operation on shared protocol state outside the reviewed table
     r7_strict_parsing_and_fixed_paths(ctx)
     r6_info_is_about_the_leaf(ctx)
+    r10_server_keeps_the_shared_slot(ctx)
     r1_r5_reload(ctx)
     r2_writers(ctx)
     r3_snapshot(ctx)
